@@ -1,31 +1,40 @@
 #!/venv/bin/python
-"""maintenance helper: apply every seeded patch to /repo in turn, run the 20 quick checks, undo, and update
-meta.json (caught_after_strengthening, caught_by).  The first-run verdict recorded at filing time is never changed."""
-import json, glob, os, subprocess, sys
-def sh(c): return subprocess.run(c, shell=True, capture_output=True, text=True)
+"""maintenance helper: apply every seeded patch to a scratch copy of /repo's packages (16 in parallel), run the 20 quick
+checks on the copy, and update meta.json (caught_after_strengthening, caught_by).  The first-run verdict recorded at
+filing time is never changed.  usage: tools_reeval_seeds.py [seed ids...]"""
+import json, glob, os, shutil, subprocess, sys, tempfile
+from concurrent.futures import ThreadPoolExecutor
 only = set(sys.argv[1:])
-tot = first = after = 0
-for meta in sorted(glob.glob('/verif/seeded/*/meta.json')):
+
+def one(meta):
     d = os.path.dirname(meta); sid = os.path.basename(d)
     m = json.load(open(meta))
-    if only and sid not in only:
-        continue
-    assert sh('git -C /repo status --porcelain').stdout.strip() == '', 'repo not clean'
-    r = sh(f'git -C /repo apply {d}/patch.diff')
-    if r.returncode:
-        print('APPLY FAILED', sid, r.stderr.strip()); continue
-    caught = {}
+    base = tempfile.mkdtemp(prefix='seed-reeval-')
     try:
+        shutil.copytree('/repo/frappy', os.path.join(base, 'frappy'), ignore=shutil.ignore_patterns('__pycache__', 'gui'))
+        r = subprocess.run(['patch', '-p1', '-s', '-f', '--no-backup-if-mismatch', '-i', os.path.join(d, 'patch.diff')], cwd=base, capture_output=True, text=True)
+        if r.returncode:
+            return sid, m, None, 'patch does not apply: ' + r.stdout[:200]
+        caught = {}
+        env = dict(os.environ, VERIF_REPO=base, VERIF_NO_EVIDENCE='1', PYTHONDONTWRITEBYTECODE='1')
         for i in range(1, 21):
             p = f'C{i:02d}'
-            c = sh(f'VERIF_NO_EVIDENCE=1 /venv/bin/python /verif/check {p}')
+            c = subprocess.run(['/venv/bin/python', '/verif/check', p], env=env, capture_output=True, text=True)
             if c.returncode == 1:
                 caught[p] = [l.strip().split(' ')[0] for l in c.stdout.splitlines() if l.startswith('  C')][:4]
+        return sid, m, caught, ''
     finally:
-        sh('git -C /repo checkout -- .')
-    m['caught_after_strengthening'] = caught
-    m['caught_by'] = ', '.join(f"{p} ({'; '.join(sorted({k.split(':')[0] for k in v}))})" for p, v in caught.items()) or None
-    json.dump(m, open(meta, 'w'), indent=1)
-    tot += 1; first += bool(m.get('caught_at_first_run')); after += bool(caught)
-    print(sid, 'round', m.get('round'), 'first-run' if m.get('caught_at_first_run') else 'later', '|', m['caught_by'])
+        shutil.rmtree(base, ignore_errors=True)
+
+metas = [x for x in sorted(glob.glob('/verif/seeded/*/meta.json')) if not only or os.path.basename(os.path.dirname(x)) in only]
+tot = first = after = 0
+with ThreadPoolExecutor(max_workers=16) as ex:
+    for sid, m, caught, err in ex.map(one, metas):
+        if caught is None:
+            print('FAILED', sid, err); continue
+        m['caught_after_strengthening'] = caught
+        m['caught_by'] = ', '.join(f"{p} ({'; '.join(sorted({k.split(':')[0] for k in v}))})" for p, v in caught.items()) or None
+        json.dump(m, open(f'/verif/seeded/{sid}/meta.json', 'w'), indent=1)
+        tot += 1; first += bool(m.get('caught_at_first_run')); after += bool(caught)
+        print(sid, 'round', m.get('round'), 'first-run' if m.get('caught_at_first_run') else 'later', '|', m['caught_by'])
 print(f'{tot} seeds: {first} caught at first run, {after} caught now')
